@@ -37,7 +37,8 @@ def class_guard(fn, b):
     """Class constant C such that block b is dominated by the true edge of `class == C` (None if unguarded)."""
     out = []
     for g in paths.dom_guards(fn, b):
-        m = re.match(r'^Class::eq\(.*,Class\((\d+)_u16\)\) not in \[0\]$', g)
+        m = re.match(r'^Class::eq\(.*,Class\((\d+)_u16\)\) not in \[0\]$', g) or re.match(r'^Class::eq\(Class\((\d+)_u16\),.*\) not in \[0\]$', g) \
+            or re.match(r'^Class::ne\(.*,Class\((\d+)_u16\)\) in \[0\]$', g) or re.match(r'^Class::ne\(Class\((\d+)_u16\),.*\) in \[0\]$', g)
         if m:
             out.append(int(m.group(1)))
     return out[-1] if out else None
